@@ -44,6 +44,10 @@ def run(ck, ctx):
                      "stamp its peers already hold)")
     ck.nd("that the resulting stamp supersedes on every replica additionally needs C07 (merge algebra)")
     ck.nd("per-field stamps inside hash values larger than the outer stamp (value-level)")
+    ck.rule("R08.10", "the clocks are rebuilt from everything that was persisted: the recovered checkpoint and every recovered delta reach the shard "
+                      "actors as the recovery manager returned them (no picking, collapsing or reordering on the way), through the merging ingest "
+                      "that advances the clock past each of them - a delta dropped here can be the one that carries a shard's newest stamp "
+                      "(shared with C11 R11.3)")
     ck.rule("R08.9", "the newest stamp wins wherever values meet: every merge function a delivered or recovered value passes through is a "
                      "certified lattice join that selects by the Lamport stamp only (the C07 certificate R07.0-R07.2, shared; the "
                      "associativity hazard R07.3 stays with C07/C06) - a merge that prefers one side for another reason (vector-clock "
@@ -62,6 +66,9 @@ def run(ck, ctx):
         _r086(ck, prog, cfg)
         _r087(ck, prog, cfg)
         _r088(ck, prog, cfg)
+        from . import c11 as _c11
+        from .core import Alias as _Alias
+        _c11._r113(_Alias(ck, "R11.3", "R08.10"), prog, cfg)
 
 
 def _is_time_place(pl):
